@@ -10,9 +10,12 @@
 (*   calls     smoother / coarse solver calls (kind*16 + level) from FEAT's Statistics expression log      *)
 (*   *_ok      prol / rest / trunc of the CONVERTED LAFEM::Transfer equal the original matrices            *)
 (*             (structure, converted values, products of small-integer vectors within one rounding bound)  *)
+(* Variants "clone" / "global-clone": the LAFEM::Transfer / Global::Transfer objects went through            *)
+(* clone (all value-carrying modes; 1 or 3 times) and moves before the multigrid was built (the exact, exhaustive *)
+(* version of these life-cycle histories is spec/MGCycleXferGen.tla).                                       *)
 (* Contract:                                                                                               *)
-(*   SameMap          a conversion of the index type and the Global:: container layer on one process do     *)
-(*                    not change a single bit of the correction; a conversion to float changes it by at    *)
+(*   SameMap          a conversion of the index type, the Global:: container layer on one process, clone and *)
+(*                    move do not change a single bit of the correction; a conversion to float changes it by at *)
 (*                    most FloatBound float epsilons (forward error of one cycle, stated safety factor)     *)
 (*   CallsAccepted    the calls are those of the documented cycle Decl(cyc, 0, nlev-1), on every variant    *)
 (*   TransferOpsAgree the converted transfer object restricts with the restriction, prolongates with the    *)
@@ -29,7 +32,7 @@ Next == k < Len(Runs) /\ k' = k + 1
 Spec == Init /\ [][Next]_k
 
 Run == Runs[k]
-Variants == {"index", "float", "global", "global-muxer"}
+Variants == {"index", "float", "global", "global-muxer", "clone", "global-clone"}
 Allowed(v) == IF v = "float" THEN FloatBound ELSE 0
 FlagsOfRun(r) == [l \in 0..MaxLevAll |-> [pre |-> TRUE, post |-> TRUE, peak |-> r.peak, cs |-> TRUE]]
 ExpCalls(r) == SelectSeq(Calls(Decl(r.cyc, 0, r.nlev - 1), FlagsOfRun(r)), LAMBDA e : EvKind(e) \in {KPre, KPost, KPeak, KCoarse})
